@@ -33,7 +33,7 @@ theorem consts_pinned :
     Gen.Consts.reCols = ["([0-9]+)", "([0-9]+)", "RE_FLOAT", "RE_FLOAT", "RE_FLOAT", "RE_FLOAT", "(-?[0-9]+)"] ∧
     Gen.Consts.reExtraCols = "[RE_FLOAT for _ in extras]" ∧
     Gen.Consts.reColsJoin = "'\\\\s+'.join(re_swc_cols)" ∧
-    Gen.Consts.reSwcTemplate = "re.compile(f'^\\\\s*{re_swc_cols_str}\\\\s*([\\\\s+-.0-9]*)$')" ∧
+    Gen.Consts.reSwcTemplate = "re.compile(f'^\\\\s*{re_swc_cols_str}((?:\\\\s+[+-.0-9eE]+)*)\\\\s*$')" ∧
     Gen.Consts.readTransforms = "[int, int, float, float, float, float, int] + [float for _ in extras]" ∧
     Gen.Consts.lineDispatch = ["(match := re_swc.search(line)) is not None", "(match := RE_COMMENT.match(line))", "not line.isspace()"] ∧
     Gen.Consts.invalidAction = "raise ValueError(f'invalid row {i + 1} in `{fname}`')" ∧
